@@ -349,7 +349,9 @@ def _render_additive(spec, i):
     pieces = []
     for t in e["terms"]:
         pieces.append(f"{_coef_text(spec, t)}*{_tok(names[t[0]], t[1])}")
-    if e["const"] != 0:
+    if e.get("const_param"):
+        pieces.append(e["const_param"])       # the constant is a parameter of the model (value kept in e["const"])
+    elif e["const"] != 0:
         pieces.append(_num(e["const"]))
     if nl_terms(spec):
         xs, _ = steady(spec)
@@ -377,7 +379,9 @@ def _render_multiplicative(spec, i):
     e = spec["eqs"][i]
     names = spec["names"]
     pieces = []
-    if e["const"] != 0:
+    if e.get("const_param"):
+        pieces.append(f"exp({e['const_param']})")
+    elif e["const"] != 0:
         pieces.append(f"exp({_num(e['const'])})")
     for t in e["terms"]:
         pieces.append(f"{_tok(names[t[0]], t[1])}^{_coef_text(spec, t) if (len(t) > 3 and t[3] is not None) else _num(t[2])}")
@@ -417,8 +421,9 @@ def source(spec):
     sh = [s for s in shock_names(spec) if s]
     if sh:
         lines += ["!transition-shocks", "    " + ", ".join(sh)]
-    if spec["params"]:
-        lines += ["!parameters", "    " + ", ".join(p["name"] for p in spec["params"])]
+    pnames = [p["name"] for p in spec["params"]] + [e["const_param"] for e in spec["eqs"] if e.get("const_param")]
+    if pnames:
+        lines += ["!parameters", "    " + ", ".join(pnames)]
     if spec["meas"]:
         lines += ["!measurement-variables", "    " + ", ".join(meas_names(spec))]
         ms = [w for w in mshock_names(spec) if w]
